@@ -159,9 +159,18 @@ static std::string judge(const std::string& body, int ctx, size_t pad, Case& c) 
   }
 }
 
-static void filler(Src& s, std::string& o, size_t n) {
+// mode 0: plain ASCII; 1: ASCII mixed with bytes >= 0x80 (all of them: the library copies bytes verbatim, UTF-8 or not);
+// 2: any byte a literal may hold unescaped (0x20..0xff except quote and backslash)
+static void filler(Src& s, std::string& o, size_t n, int mode = 0) {
   static const char plain[] = "abcdefghijklmnopqrstuvwxyz0123456789 _-";
-  for (size_t i = 0; i < n; i++) o.push_back(plain[s.index(sizeof plain - 1)]);
+  for (size_t i = 0; i < n; i++) {
+    if (mode == 1 && s.coin(1, 3)) o.push_back((char)s.pick(0x80, 0xff));
+    else if (mode == 2) {
+      unsigned char ch = (unsigned char)s.pick(0x20, 0xff);
+      o.push_back(ch == '"' || ch == '\\' ? (char)0x7f : (char)ch);
+    } else
+      o.push_back(plain[s.index(sizeof plain - 1)]);
+  }
 }
 
 static std::string u_escape(Src& s, unsigned v) {
@@ -285,9 +294,18 @@ static void property(Src& s, Case& c) {
     }
   }
   std::string pre, suf;
-  filler(s, pre, off);
+  int fmode = (int)s.weighted({6, 2, 2});
+  filler(s, pre, off, fmode);
   static const int sufl[] = {0, 1, 5, 14, 15, 16, 17, 31, 32, 33, 40, 100, 200};
-  filler(s, suf, (size_t)sufl[s.index(13)]);
+  filler(s, suf, (size_t)sufl[s.index(13)], fmode);
+  if (fmode) c.cls("filler:high-bytes");
+  if (s.coin(1, 3)) {
+    // a valid escape somewhere before the feature: everything after it is handled by the decoder's post-escape path
+    static const char* ve[] = {"\\n", "\\\\", "\\\"", "\\u00e9", "\\u20AC", "\\ud83d\\ude00", "\\/"};
+    pre.insert((size_t)s.pick(0, pre.size()), ve[s.index(7)]);
+    c.cls("escape-before-feature");
+    if (fmode) c.cls("escape-before-feature+high-bytes");
+  }
   // sometimes a second feature further on (two features: class not demanded when both are faults)
   if (s.coin(1, 10)) suf += feature;
   std::string body = pre + feature + suf;
